@@ -33,10 +33,20 @@ func main() {
 		f(run, r)
 		run.Notes["wall_"+name] = time.Since(t0).Seconds()
 	}
+	var stalls *stallSet
+	if only == "" || strings.Contains(only, "stall") {
+		stalls = startStalls(run, rng.Fork(7)) // timer-bound scenarios: run concurrently, judged at the end
+	}
 	sect("disc", 1, discSection)
 	sect("frame", 2, frameSection)
 	sect("hs", 3, handshakeSection)
 	sect("proto", 4, protoSection)
 	sect("aqua", 5, aquaSection)
+	sect("ident", 6, identSection)
+	if stalls != nil {
+		t0 := time.Now()
+		stalls.join(run)
+		run.Notes["wall_stall_join"] = time.Since(t0).Seconds()
+	}
 	run.Finish()
 }
